@@ -44,6 +44,11 @@ macro_rules! forms_for {
     ($ty:ty, $inst:expr, $op:ident, $s:expr) => {{
         let s: &str = $s;
         let owned: String = s.to_string();
+        let roomy = || {
+            let mut r = String::with_capacity(s.len() + 64);
+            r.push_str(s);
+            r
+        };
         let v: Vec<(&'static str, Out)> = vec![
             ("static,&str", conv(guard(|| <$ty as PrecisFastInvocation>::$op(s)))),
             ("static,String", conv(guard(|| <$ty as PrecisFastInvocation>::$op(owned.clone())))),
@@ -57,6 +62,8 @@ macro_rules! forms_for {
             ("long-lived,&str", conv(guard(|| $inst.$op(s)))),
             ("long-lived,&String", conv(guard(|| $inst.$op(&owned)))),
             ("long-lived,Cow::Borrowed", conv(guard(|| $inst.$op(Cow::Borrowed(s))))),
+            ("static,String with spare capacity", conv(guard(|| <$ty as PrecisFastInvocation>::$op(roomy())))),
+            ("new(),Cow::Owned with spare capacity", conv(guard(|| <$ty>::new().$op(Cow::<str>::Owned(roomy()))))),
         ];
         v
     }};
@@ -602,7 +609,7 @@ pub fn run(_env: &Env, run: &Run) -> (Stats, Coverage) {
     st.sample(json!({"forms": "UsernameCaseMapped::enforce(\"Abc\") via static/new()/default()/long-lived x &str/String/&String/Cow::Borrowed/Cow::Owned", "expected": "all Ok(\"abc\")"}));
     st.sample(json!({"history": ["Nickname.enforce(U+00A8 a)", "UsernameCaseMapped.compare(Abc, ABC)", "Nickname.enforce(U+00A8 a)"], "expected": "each result equals the result of the same call made first in a fresh process"}));
     let cov = Coverage {
-        rule: format!("(a) every string of length <= {} over 16 symbols x 4 profiles x {{prepare, enforce}} x 12 (entry point, argument form) pairs and compare x 8 forms: all equal; (b) every call history of length <= {} over an alphabet of {} calls (4 profiles x 3 ops x 10 inputs hitting every fast and slow path) executed on the process-wide statics and on one long-lived instance per profile, every result compared with the result of that call as the FIRST library call of a fresh process ({} child processes); (c) every interleaving of 2-3 threads over the lazy-singleton points, see 'schedules'; (d) inventory of shared-state constructs in the three crates; (e) SAMPLING, supplementary: free-running threads released from a barrier in fresh child processes; (f) race-detector pass for state the explorer has no scheduling point for: every one of ~1000 library calls (4 profiles x static/instance/rule-level entry points, both classes, all 8 context rules x 46 labels) as the first use of the library by 3 threads of a fresh process, and every unordered pair of those calls on 2 free-running threads, under ThreadSanitizer with std rebuilt (see 'race_detector_pass'); non-trivial = histories mixing different calls", n, depth, alpha.len(), alpha.len()),
+        rule: format!("(a) every string of length <= {} over 16 symbols x 4 profiles x {{prepare, enforce}} x 14 (entry point, argument form) pairs (incl. owned Strings with spare capacity) and compare x 8 forms: all equal; (b) every call history of length <= {} over an alphabet of {} calls (4 profiles x 3 ops x 10 inputs hitting every fast and slow path) executed on the process-wide statics and on one long-lived instance per profile, every result compared with the result of that call as the FIRST library call of a fresh process ({} child processes); (c) every interleaving of 2-3 threads over the lazy-singleton points, see 'schedules'; (d) inventory of shared-state constructs in the three crates; (e) SAMPLING, supplementary: free-running threads released from a barrier in fresh child processes; (f) race-detector pass for state the explorer has no scheduling point for: every one of ~1000 library calls (4 profiles x static/instance/rule-level entry points, both classes, all 8 context rules x 46 labels) as the first use of the library by 3 threads of a fresh process, and every unordered pair of those calls on 2 free-running threads, under ThreadSanitizer with std rebuilt (see 'race_detector_pass'); non-trivial = histories mixing different calls", n, depth, alpha.len(), alpha.len()),
         alphabet: json!({"symbols": sigma.iter().map(|c| format!("U+{:04X}", *c as u32)).collect::<Vec<_>>(), "history_inputs": INPUTS.iter().map(|s| show(s)).collect::<Vec<_>>()}),
         bound_completed: format!("forms: {} strings; histories: depth {}", tree_size(sigma.len(), n), depth),
         exhaustive: false,
